@@ -135,13 +135,15 @@ type Worker struct {
 	Op     *operator.Operator
 	OpID   string
 	H      *ophar.Handler
-	clock  *clocks.FrozenClock
+	clock  *clocks.FrozenClock // the source runner's clock
+	opClk  *clocks.FrozenClock // the operator's clock (FrozenClock keys pollers by label: they cannot share one)
 	cancel context.CancelFunc
 	done   chan error
 	Dead   bool
 	Range  partitioning.KeyGroupRange
 	hasRng bool
 	reader *VReader // the reader of its current deployment
+	killed bool
 }
 
 type Cluster struct {
@@ -160,6 +162,8 @@ type Cluster struct {
 	deploys  []DeployRec
 	startCk  []StartCkRec
 	keyed    []KeyedRec
+	round    int
+	inRound  map[string]bool
 	edgeErrs []string
 	keyedMax map[string]int64
 	errc     chan error
@@ -174,6 +178,8 @@ type Cluster struct {
 	jobGen     int
 	Latency    func(seq int)             // optional handler latency
 	OnOpAck    func(a OpAck, w *Worker) // synchronous, on the operator's event loop, before the ack is forwarded
+	// OnOperatorDeploy is called before an operator's HandleDeploy is invoked (epoch switch: shadow = cut).
+	OnOperatorDeploy func(rec DeployRec)
 }
 
 // SetChecks installs the per-keyed-event state check of every worker's handler.
@@ -193,6 +199,7 @@ func (c *Cluster) ReaderLive(r *VReader) bool {
 }
 
 type DeployRec struct {
+	Round    int // deploy round (one Assembly.Deploy call)
 	Tick     int64
 	Node     string
 	Kind     string // operator | runner
@@ -259,7 +266,7 @@ func (c *Cluster) AddWorker() *Worker {
 	name := fmt.Sprintf("w%d", c.nextW)
 	c.nextW++
 	c.mu.Unlock()
-	w := &Worker{Name: name, clock: clocks.NewFrozenClock(), done: make(chan error, 1), OpID: "op-" + name}
+	w := &Worker{Name: name, clock: clocks.NewFrozenClock(), opClk: clocks.NewFrozenClock(), done: make(chan error, 1), OpID: "op-" + name}
 	w.H = ophar.NewHandlerSharing(w.OpID, c.Store)
 	w.H.TimerProg = c.TimerFn
 	w.H.Check = c.checks
@@ -278,7 +285,7 @@ func (c *Cluster) AddWorker() *Worker {
 		}})
 	w.SR.ID = "sr-" + name
 	w.SR.Logger = ophar.QuietLog
-	w.Op = operator.NewOperator(operator.NewOperatorParams{ID: w.OpID, Host: "host-" + name, Job: ja, UserHandler: kh, Clock: w.clock, EventBatching: c.Cfg.Batch, NeighborOperatorFactory: opFactory})
+	w.Op = operator.NewOperator(operator.NewOperatorParams{ID: w.OpID, Host: "host-" + name, Job: ja, UserHandler: kh, Clock: w.opClk, EventBatching: c.Cfg.Batch, NeighborOperatorFactory: opFactory})
 	w.Op.Logger = ophar.QuietLog
 	c.mu.Lock()
 	c.workers = append(c.workers, w)
@@ -305,10 +312,11 @@ func (c *Cluster) AddWorker() *Worker {
 // Kill halts a worker without deregistration and marks it dead at every edge.
 func (c *Cluster) Kill(w *Worker) {
 	c.mu.Lock()
-	if w.Dead {
+	if w.killed {
 		c.mu.Unlock()
 		return
 	}
+	w.killed = true
 	w.Dead = true
 	c.mu.Unlock()
 	w.SR.Halt()
@@ -328,6 +336,26 @@ func (c *Cluster) Kill(w *Worker) {
 	}
 }
 
+// MarkDead cuts the worker off at every edge (its calls fail, calls to it fail) without stopping it yet.
+func (c *Cluster) MarkDead(w *Worker) {
+	c.mu.Lock()
+	w.Dead = true
+	c.mu.Unlock()
+}
+
+// NodeLive reports whether an operator or source runner id belongs to a live worker.
+func (c *Cluster) NodeLive(id string) bool {
+	c.mu.Lock()
+	defer c.mu.Unlock()
+	if w := c.byOp[id]; w != nil {
+		return !w.Dead
+	}
+	if w := c.bySR[id]; w != nil {
+		return !w.Dead
+	}
+	return false
+}
+
 // Shutdown stops a worker gracefully (deregisters).
 func (c *Cluster) Shutdown(w *Worker) {
 	w.SR.Stop()
@@ -343,8 +371,14 @@ func (c *Cluster) Shutdown(w *Worker) {
 
 // Heartbeat makes the worker's registration pollers fire (operators and runners re-register every 3 s).
 func (c *Cluster) Heartbeat(w *Worker) {
-	defer func() { recover() }() // a poller may not be registered yet
-	w.clock.TickEvery("register")
+	func() {
+		defer func() { recover() }() // a poller may not be registered yet
+		w.clock.TickEvery("register")
+	}()
+	func() {
+		defer func() { recover() }()
+		w.opClk.TickEvery("register")
+	}()
 }
 
 func (c *Cluster) Workers() []*Worker {
@@ -365,6 +399,19 @@ func (c *Cluster) Live() []*Worker {
 	return out
 }
 
+// NotKilled lists the workers that are still running (dead-marked or not).
+func (c *Cluster) NotKilled() []*Worker {
+	c.mu.Lock()
+	defer c.mu.Unlock()
+	var out []*Worker
+	for _, w := range c.workers {
+		if !w.killed {
+			out = append(out, w)
+		}
+	}
+	return out
+}
+
 // TickCheckpoint fires the job's checkpoint ticker; false if the job is not running yet.
 func (c *Cluster) TickCheckpoint() (ok bool) {
 	defer func() {
@@ -379,9 +426,7 @@ func (c *Cluster) TickCheckpoint() (ok bool) {
 // StopAll stops everything (end of a case).
 func (c *Cluster) StopAll() {
 	for _, w := range c.Workers() {
-		if !w.Dead {
-			c.Kill(w)
-		}
+		c.Kill(w)
 	}
 }
 
@@ -620,6 +665,17 @@ func (a *opAd) Deploy(ctx context.Context, r *workerpb.DeployOperatorRequest) er
 			w.Range, w.hasRng = rg, true
 			a.c.mu.Unlock()
 		}
+	}
+	a.c.mu.Lock()
+	if a.c.inRound == nil || a.c.inRound[a.node.Id] {
+		a.c.round++
+		a.c.inRound = map[string]bool{}
+	}
+	a.c.inRound[a.node.Id] = true
+	rec.Round = a.c.round
+	a.c.mu.Unlock()
+	if a.c.OnOperatorDeploy != nil {
+		a.c.OnOperatorDeploy(rec)
 	}
 	rec.Err = w.Op.HandleDeploy(ctx, r, &embedded.RecordingSink{})
 	return rec.Err
